@@ -852,6 +852,15 @@ func (c *Ctx) ruleG2() {
 			if g.Parent() != nil {
 				if spawn, _ := c.goSpawnOf(g); spawn != nil {
 					cands = append(cands, g)
+					// a literal that only wraps the consumer (signals its end, then calls it)
+					eachCall(g, func(call ssa.CallInstruction) {
+						if _, isGo := call.(*ssa.Go); isGo {
+							return
+						}
+						if h := call.Common().StaticCallee(); h != nil && h.Blocks != nil && h.Pkg != nil && inRepo(h.Pkg.Pkg) && h.Parent() == nil {
+							cands = append(cands, h)
+						}
+					})
 				}
 			}
 			eachInstr(g, func(in ssa.Instruction) {
@@ -862,7 +871,12 @@ func (c *Ctx) ruleG2() {
 				}
 			})
 		}
+		seenCand := map[*ssa.Function]bool{}
 		for _, g := range cands {
+			if seenCand[g] {
+				continue
+			}
+			seenCand[g] = true
 			// does g receive from a progress channel?
 			var recvCh ssa.Value
 			var sel *ssa.Select
